@@ -90,7 +90,7 @@ PROPS["C06"] = dict(
     ],
     trace="Trace_C02",
     drive=dict(quick=dict(n=6000, size=4), thorough=dict(n=100000, size=8)),
-    nontrivial=lambda e: len(e["args"]["doc"]["mappings"][0]) >= 2,
+    nontrivial=lambda e: (len(e["args"]["doc"]["mappings"][0]) >= 2 if e["args"]["doc"]["mappings"] else bool(e["args"]["doc"].get("sections"))),
     corrupt=_corrupt_decode,
     rule="cases: every text of MC_Mappings (base texts and every single fault at every position, 3 array sizes incl. empty arrays) and seeded random well-formed texts damaged by 1-2 faults (9 fault operators); distinct = distinct (text, sizes); non-trivial = text of >= 2 symbols",
     assumptions=COMMON_ASSUMPTIONS,
